@@ -1,5 +1,6 @@
 import ZipVerif.Lemmas.Layers
 import ZipVerif.Lemmas.Crc32
+import ZipVerif.Lemmas.EntryBridge
 /-
 C04 — A read that completes successfully returned uncorrupted data.
 Property theorems only; helper lemmas are in `Lemmas/Layers.lean` and `Lemmas/Crc32.lean`.
@@ -263,6 +264,113 @@ theorem truncated_payload_detected (inner : Src σ) {s : σ} (part : Bytes) (csi
   rw [e3] at hd
   exact hd
 
+/-! ## Archive level: every entry of every byte string accepted as an archive (finding F9)
+
+The theorems above speak about the entry reader `Crc32Reader(decoder(Take(reader)))` with free
+parameters `check`, `csize`.  `Model/Reader.lean` describes what `ZipArchive::new` + `by_index` do with an
+arbitrary byte string, but reads the entry in one go (`takeAll`, pure `Ext.decode`, `crcCheck`).
+`Lemmas/EntryBridge.lean` connects the two; here the consequences for C04, with the parameters
+`by_index` really uses: `crc32` and `compressed_size` of the parsed CENTRAL record, the bytes behind the
+data start computed from the LOCAL header. -/
+
+/-- **C04 for the seekable reader, all byte strings, all unencrypted entries, all methods.**
+`bs` is ANY byte string `ZipArchive::new` accepts (valid or damaged), `i` any index, `by_index` hands
+out the entry with read-to-end result `res` (in the reader model).  Then
+(1) if `res` is a success its bytes have the CRC-32 the central record declares;
+(2) call by call: over ANY reader holding the archive's bytes from the data start (any short reads),
+    with ANY decoder behaviour `c` (nothing assumed: damaged input, schedule dependent, …) and ANY
+    caller buffers, a loop that ends with a clean end-of-file has returned bytes with that CRC-32;
+(3) the two descriptions agree whenever `c` is the decoder `ext` summarises on this entry's stored
+    bytes (`CodecFor`: a theorem for Stored, `Codec.IntactOK` for intact compressed entries): every
+    finished loop returns `res` - same bytes on success, an error iff an error. -/
+theorem archive_entry_sound (ext : Model.Ext) (bs : Bytes) {fa₀ : Option Nat} {a : Model.Archive}
+    {d₀ : Model.Dev} (hopen : Model.openArchive fa₀ (Model.Dev.ofBytes bs) = (.ok a, d₀))
+    {i : Nat} {data : Model.FileData} (hfile : a.files[i]? = some data)
+    (henc : data.encrypted = false) {pw : Option Bytes} {fa : Option Nat} {d' : Model.Dev} {ds : Nat}
+    {res : Out Bytes} (h : Model.byIndexRead ext a i pw fa d₀ = (.ok (.ok (ds, res)), d')) :
+    (∀ content, res = .ok content → Crc32.crc32 content = data.crc32) ∧
+    (∀ {σ : Type} (c : Codec) (inner : Src σ) (s : σ) (reqs : List Nat) (b : Bytes)
+        (e : c.St (σ × Nat) × UInt32),
+      readToEnd (entryPipeline c inner data.crc32 false)
+        (c.init (s, data.compressedSize.toNat), Crc32.init) reqs = some (b, .eof, e) →
+      Crc32.crc32 b = data.crc32) ∧
+    (∀ {σ : Type} (c : Codec),
+      Model.CodecFor ext data.method c ((bs.drop ds).take data.compressedSize.toNat) →
+      ∀ (inner : Src σ) (s : σ), Denotes inner s (bs.drop ds) .eof →
+      ∀ (reqs : List Nat) (b : Bytes) (t : Term) (e : c.St (σ × Nat) × UInt32),
+        readToEnd (entryPipeline c inner data.crc32 false)
+          (c.init (s, data.compressedSize.toNat), Crc32.init) reqs = some (b, t, e) →
+        res = Model.outOfLoop (b, t)) := by
+  have hbuf : d₀.buf = bs := by
+    have := Model.openArchive_readOnly.elim fa₀ (Model.Dev.ofBytes bs)
+    rw [hopen] at this; exact this
+  obtain ⟨_, _, _, hres⟩ := Model.byIndexRead_plain_inv hfile henc h
+  refine ⟨?_, ?_, ?_⟩
+  · intro content hc
+    rw [hres] at hc
+    cases hd : ext.decode data.method ((d₀.buf.drop ds).take data.compressedSize.toNat) with
+    | ok x =>
+      rw [hd] at hc
+      change Model.crcCheck false data.crc32 x = .ok content at hc
+      unfold Model.crcCheck at hc
+      split at hc
+      · cases hc
+      · rename_i hne
+        cases hc
+        simpa using hne
+    | err e => rw [hd] at hc; cases hc
+    | panic s => rw [hd] at hc; cases hc
+  · intro σ c inner s reqs b e hr
+    rcases entry_read_sound_any_method c inner data.crc32 false s _ reqs hr with h1 | h1
+    · cases h1
+    · exact h1
+  · intro σ c hc inner s hin reqs b t e hr
+    rw [← hbuf] at hc hin
+    exact Model.entry_bridge hfile henc h c hc inner s hin reqs hr
+
+/-- **C04 for the streaming reader** (`read_zipfile_from_stream`), any byte stream: the entry's CRC
+and size come from the LOCAL record `f`, the bytes are those behind it. -/
+theorem stream_entry_sound (ext : Model.Ext) {fa : Option Nat} {d d' : Model.Dev}
+    {f : Model.FileData} {res : Out Bytes}
+    (h : Model.streamEntry ext fa d = (.ok (some (f, res)), d')) :
+    (∀ content, res = .ok content → Crc32.crc32 content = f.crc32) ∧
+    (∀ {σ : Type} (c : Codec) (inner : Src σ) (s : σ) (reqs : List Nat) (b : Bytes)
+        (e : c.St (σ × Nat) × UInt32),
+      readToEnd (entryPipeline c inner f.crc32 false)
+        (c.init (s, f.compressedSize.toNat), Crc32.init) reqs = some (b, .eof, e) →
+      Crc32.crc32 b = f.crc32) ∧
+    (∃ d1, Model.streamHeader fa d = (.ok (some f), d1) ∧ d1.buf = d.buf ∧
+      ∀ {σ : Type} (c : Codec),
+        Model.CodecFor ext f.method c ((d.buf.drop d1.pos).take f.compressedSize.toNat) →
+      ∀ (inner : Src σ) (s : σ), Denotes inner s (d.buf.drop d1.pos) .eof →
+      ∀ (reqs : List Nat) (b : Bytes) (t : Term) (e : c.St (σ × Nat) × UInt32),
+        readToEnd (entryPipeline c inner f.crc32 false)
+          (c.init (s, f.compressedSize.toNat), Crc32.init) reqs = some (b, t, e) →
+        res = Model.outOfLoop (b, t)) := by
+  obtain ⟨d1, h1, hb, hres⟩ := Model.streamEntry_inv h
+  refine ⟨?_, ?_, ⟨d1, h1, hb, ?_⟩⟩
+  · intro content hc
+    rw [hres] at hc
+    cases hd : ext.decode f.method ((d1.buf.drop d1.pos).take f.compressedSize.toNat) with
+    | ok x =>
+      rw [hd] at hc
+      change Model.crcCheck false f.crc32 x = .ok content at hc
+      unfold Model.crcCheck at hc
+      split at hc
+      · cases hc
+      · rename_i hne
+        cases hc
+        simpa using hne
+    | err e => rw [hd] at hc; cases hc
+    | panic s => rw [hd] at hc; cases hc
+  · intro σ c inner s reqs b e hr
+    rcases entry_read_sound_any_method c inner f.crc32 false s _ reqs hr with h1 | h1
+    · cases h1
+    · exact h1
+  · intro σ c hc inner s hin reqs b t e hr
+    rw [hres, hb]
+    exact Model.pipeline_eq_decode_crc ext f.method c _ _ _ hc inner s hin reqs hr
+
 /-! ## Non-vacuity -/
 
 /-- Hypotheses of `stored_corruption_detected` on a concrete instance: a reader delivering one byte
@@ -319,5 +427,15 @@ example :
       (pickyCodec.init ((⟨[1, 2, 3, 9], [], [], none⟩ : Scripted), 3), Crc32.init) [4, 4]).map
         (fun r => (r.1, r.2.1)) = some ([1, 2, 3], Term.err .other) := by
   decide +kernel
+
+/-- The hypotheses of `archive_entry_sound` on a concrete archive, and its three conclusions observed:
+accepted, entry 0 handed out with data start 31 and content "Z"; the call-by-call read over a reader
+delivering one byte at a time, with zero-length buffers interleaved, returns the same. -/
+example : Model.openReadBoth Model.oneEntry 0 [1] [0, 3, 0, 3] = some (31, [0x5a], some ([0x5a], .eof)) := by
+  decide +kernel
+
+/-- One bit of the payload flipped (`Z` -> `[`): the archive is still accepted, the reader model
+reports an error for the entry (no content) … -/
+example : Model.openReadBoth (Model.oneEntry.set 31 0x5b) 0 [1] [0, 3, 0, 3] = none := by decide +kernel
 
 end ZipVerif.Props.C04
